@@ -8,7 +8,7 @@ META = {
              'while a direct dependent is unfinished; everything whose last dependent just finished is released in '
              'the call that follows the yield), probe of the real runner after each release and at close() '
              '(get_result must raise KeyError), probe of dependency availability at every submit, get_result for '
-             'requested tasks must not raise, dependency reads must not fail for untainted dependencies. Distinct by '
+             'requested tasks must not raise, dependency reads must not fail for untainted dependencies - also in a second run_tasks call (bust_cache) of the same Lab on the same task objects (40 % of the ungated runs). Distinct by '
              '(DAG, config, schedule seed, failing set); non-trivial when >= 1 shared dependency (>= 2 dependents) '
              'or a failure is present and >= 3 completions.'),
     'assumptions': ['Runner.get_result raising KeyError <=> no in-memory result (documented Runner API)'],
@@ -26,6 +26,10 @@ def make_scn(rng, real):
     scn = gen_dag_scenario(rng, backend=backend, shape=rng.choice(['fanin', 'diamond', 'layered', 'mix', 'fanout', None]),
                            nmax=rng.choice([5, 8, 11]), failing=rng.random() < 0.5, fail_kinds=kinds,
                            gated=(rng.random() < 0.5))
+    sim_deaths = backend == 'sim' and any(a in ('kill', 'exit', 'exit0') for a in (scn.get('failing') or {}).values())
+    if not scn.get('gated') and not sim_deaths and rng.random() < 0.4:
+        # (the sim runner's planned deaths are a property of the runner object, which serves both calls)
+        scn['second_run'] = {'failing': {}}
     return scn
 
 
@@ -33,7 +37,23 @@ def judge(rep, scn, out):
     from vlab import oracles
     from vlab.gen import dependents_of
     from vlab.props.dagprop import report_bad
+    sec = getattr(out, 'second', None)
+    if sec:
+        out.trace.calls = out.trace.calls[:len(out.trace.calls) - len(sec['calls'])]
     bad, checks = oracles.c17(scn, out)
+    if sec:
+        # the same Lab runs the same task objects once more (bust_cache, nothing fails): every dependency read of
+        # the second call must succeed - results are held by the runner of THAT call
+        rep.count('second_calls_on_the_same_task_objects')
+        if sec['exc']:
+            bad.append((f"second-call-raised:{sec['exc'].get('type')}", f'second run_tasks call raised {sec["exc"]}'))
+        for e in sec['events']:
+            if e['k'] == 'read':
+                checks += 1
+                if 'raised' in e:
+                    bad.append(('dependency-unreadable', f"second run_tasks call on the same task objects: {e['name']} "
+                                f"could not read {e['dep']} ({e['raised']})"))
+                    break
     rep.count('release_checks', checks)
     rep.count('remove_calls', sum(1 for c in out.trace.calls if c['op'] == 'remove'))
     rep.count('close_probes', 1 if out.exc is None else 0)
@@ -51,6 +71,7 @@ def run_shard(rep):
     cfg = META['tiers'][rep.tier]
     rep.require('release_checks', 2000)
     rep.require('close_probes', 300)
+    rep.require('second_calls_on_the_same_task_objects', 100)
     drive(rep, 'C17', make_scn=make_scn, judge=judge, n_sim=cfg['n_sim'], n_real=cfg['n_real'])
 
 
